@@ -54,6 +54,19 @@ func drawC20(t *rapid.T) C20Case {
 				n = rapid.IntRange(1, 300).Draw(t, "small")
 			}
 			c.Data = gen.Recipe{Segs: []gen.Seg{{Kind: "inc", N: n, A: int(seed % 256)}}}
+		case 6:
+			// exact Fibonacci counts over k symbols (the deepest possible Huffman tree for its size), exactly filling the data
+			k := rapid.IntRange(12, 23).Draw(t, "fibk")
+			variant := rapid.IntRange(0, 1).Draw(t, "fibvariant")
+			fa, fb, sum := 1, 1+variant, 0
+			for i := 0; i < k; i++ {
+				sum += fa
+				fa, fb = fb, fa+fb
+			}
+			if sum > max {
+				sum = max
+			}
+			c.Data = gen.Recipe{Segs: []gen.Seg{{Kind: "fib", N: sum, A: k, B: variant, Seed: seed}}}
 		case 5:
 			// one symbol at exactly half of the bytes (UTF-16 text, 16-bit samples): counts of 32768/65536 per block
 			c.Data = gen.Recipe{Segs: []gen.Seg{{Kind: "interleave", N: n, A: int(seed % 3 * 127), Seed: seed}}}
